@@ -443,4 +443,135 @@ theorem chase_bounded (z : Zone) (name : LName) (first : RRset) (t : Nat) :
   have h : MAX_CNAME_DEPTH - 1 + 1 = MAX_CNAME_DEPTH := by decide
   omega
 
+/-! ### never data from below a cut -/
+
+/-- `rr` is not occluded: no zone cut at or above its owner (for a DS query the cut at the owner
+itself does not count) — or it is the NS RRset of a delegation point itself -/
+def notBelowCut (z : Zone) (o : LName) (t : Nat) (rr : RRset) : Prop :=
+  cuts z o rr.name t = [] ∨ (rr.type = T_NS ∧ rr ∈ z ∧ rr.name ≠ o)
+
+theorem innerLookup_notBelowCut {z : Zone} {o n : LName} {t : Nat} (wf : WF z o) {rr : RRset}
+    (h : innerLookup z n t = some rr) : notBelowCut z o t rr := by
+  by_cases hn : o <:+ n
+  · unfold innerLookup lookupExact at h
+    cases hw : walk z n t n with
+    | some ns =>
+      rw [hw] at h
+      simp only [Option.some.injEq] at h
+      subst h
+      rw [walk_eq wf n t n hn] at hw
+      cases hf : ((suffixes n).filter (isCutP z o n t)).head? with
+      | none => rw [hf] at hw; cases hw
+      | some c =>
+        rw [hf] at hw
+        simp only [Option.bind_some] at hw
+        obtain ⟨hz, hnm, hty⟩ := get_some hw
+        have hc : isCutP z o n t c = true :=
+          (List.mem_filter.1 (List.mem_of_mem_head? hf)).2
+        simp only [isCutP, Bool.and_eq_true, bne_iff_ne, ne_eq] at hc
+        exact Or.inr ⟨hty, hz, hnm ▸ hc.2.2⟩
+    | none =>
+      have hcuts : cuts z o n t = [] := (walk_none_iff_noCut wf t hn).1 hw
+      rw [hw] at h
+      dsimp only at h
+      cases hs : scan z n t with
+      | some r =>
+        rw [hs] at h
+        simp only [Option.some.injEq] at h
+        subst h
+        have := List.find?_some hs
+        simp only [Bool.and_eq_true, beq_iff_eq] at this
+        exact Or.inl (this.1 ▸ hcuts)
+      | none =>
+        rw [hs] at h
+        dsimp only at h
+        unfold innerLookupWildcard at h
+        cases hws : wildSource z n t with
+        | none => rw [hws] at h; cases h
+        | some p =>
+          rw [hws] at h
+          simp only [Option.map_some, Option.some.injEq] at h
+          subst h
+          exact Or.inl hcuts
+  · rw [innerLookup_outzone wf hn] at h
+    cases h
+
+theorem chaseFrom_notBelowCut {z : Zone} {o : LName} {t : Nat} (wf : WF z o) :
+    ∀ (k : Nat) (seen : List LName) (last : RRset),
+      ∀ rr ∈ chaseFrom z t k seen last, notBelowCut z o t rr := by
+  intro k
+  induction k with
+  | zero => intro _ _ rr h; simp [chaseFrom] at h
+  | succ k ih =>
+    intro seen last rr h
+    unfold chaseFrom at h
+    split at h
+    · cases h
+    · split at h
+      · cases h
+      · split at h
+        · cases h
+        · split at h
+          · cases h
+          · split at h
+            · rename_i r hil
+              split at h
+              · rcases List.mem_cons.1 h with h | h
+                · exact h ▸ innerLookup_notBelowCut wf hil
+                · exact ih _ _ rr h
+              · rw [List.mem_singleton] at h
+                exact h ▸ innerLookup_notBelowCut wf hil
+            · cases h
+
+/--
+**No RRset in the answer section is owned by a name below a zone cut** (occluded data is never
+served), for every well-formed zone and every query — the one RRset of a delegation point that
+can appear there is its NS RRset (deviation classes `ns-any-below-cut`, `cname-into-cut`), and
+its DS RRset when DS is asked for.
+-/
+theorem never_data_below_cut {z : Zone} {o : LName} {q : Query} (hwf : zoneWF z o = true) :
+    ∀ rr ∈ (answerImpl z o q).answers, notBelowCut z o (effType z q) rr := by
+  have wf := wf_of_zoneWF hwf
+  intro rr hrr
+  unfold answerImpl at hrr
+  by_cases hin : zoneOf o q.name = true
+  · simp only [hin, if_true] at hrr
+    unfold buildAuthoritative at hrr
+    cases hla : lookupAnswers z o q.name q.type with
+    | error e =>
+      rw [hla] at hrr
+      cases e <;> simp at hrr
+    | ok p =>
+      obtain ⟨t', a, term⟩ := p
+      rw [hla] at hrr
+      dsimp only at hrr
+      have hmem : rr ∈ a := by
+        split at hrr
+        · simp at hrr
+        · exact hrr
+      -- where `a` comes from
+      unfold lookupAnswers at hla
+      dsimp only at hla
+      have heff : (if (q.type == T_ANY) = true then replaceAny z q.name else q.type) = effType z q := rfl
+      rw [heff] at hla
+      cases hil : innerLookup z q.name (effType z q) with
+      | none => rw [hil] at hla; cases hla
+      | some a0 =>
+        rw [hil] at hla
+        dsimp only at hla
+        by_cases hc : (a0.type == T_CNAME && effType z q != T_CNAME) = true
+        · rw [if_pos hc] at hla
+          cases hla
+          unfold chaseCnames at hmem
+          rcases List.mem_cons.1 hmem with h | h
+          · exact h ▸ innerLookup_notBelowCut wf hil
+          · exact chaseFrom_notBelowCut wf _ _ _ rr h
+        · rw [if_neg hc] at hla
+          cases hla
+          rw [List.mem_singleton] at hmem
+          exact hmem ▸ innerLookup_notBelowCut wf hil
+  · have hzo : zoneOf o q.name = false := by
+      cases h : zoneOf o q.name <;> simp_all
+    simp [hzo] at hrr
+
 end HickoryVerif.C10
